@@ -26,6 +26,7 @@ RULE = (
     "contains a failing conversion or a second backend before the probe."
 )
 RULE += (" Further backends of the same class may use a second pipeline definition with another variable table; probes include a placeholder that only that table defines (fresh result: error).")
+RULE += (" Every rule is loaded with its own source location; rules and probes include a condition the grammar rejects and one naming a missing detection, so the compared error text carries the location of the rule it belongs to.")
 ASSUMPTIONS = [
     "results are compared as strings (same code, same configuration)",
     "the internal name of an added condition is random; it never appears in the compared output",
@@ -68,6 +69,8 @@ def rule_doc(i: int, kind: str, ls: dict, cond_idx: int = 0):
         cond = "sel and not neg"
     elif kind == "missing":
         cond = "sel and nothere"
+    elif kind == "broken":  # a condition the grammar rejects
+        cond = "sel and not (other"
     elif kind == "multi":
         cond = [cond, "other or third"]
     d = {"title": f"rule{i}", "logsource": dict(ls), "detection": dict(det, condition=cond), "fields": ["f", "h"]}
@@ -113,10 +116,12 @@ def _probe(backend, doc, via: str):
         return re.sub(r"_cond_[a-z]{10}", "_cond_X", str(q))
 
     try:
+        from sigma.exceptions import SigmaRuleLocation
+        src = SigmaRuleLocation("/rules/probe.yml")  # every rule has its own source location: errors name it
         if via == "convert":
-            res = backend.convert(SigmaCollection.from_dicts([copy.deepcopy(doc)]))
+            res = backend.convert(SigmaCollection.from_dicts([copy.deepcopy(doc)], source=src))
         else:
-            res = backend.convert_rule(SigmaRule.from_dict(copy.deepcopy(doc)))
+            res = backend.convert_rule(SigmaRule.from_dict(copy.deepcopy(doc), source=src))
         return ("ok", [norm(q) for q in res], [(r.title, type(e).__name__, norm(e)) for r, e in backend.errors])
     except Exception as e:  # noqa
         return ("raised", type(e).__name__, norm(e)[:200])
@@ -124,6 +129,7 @@ def _probe(backend, doc, via: str):
 
 def check_case(case: dict) -> Outcome:
     from sigma.collection import SigmaCollection
+    from sigma.exceptions import SigmaRuleLocation
     from sigma.rule import SigmaRule
 
     out = Outcome()
@@ -159,20 +165,20 @@ def check_case(case: dict) -> Outcome:
                 inits.append(b)
                 hist.append(f"b{b}.init")
             elif kind == "load":
-                SigmaRule.from_dict(copy.deepcopy(docs[op[1] % len(docs)]))
+                SigmaRule.from_dict(copy.deepcopy(docs[op[1] % len(docs)]), source=SigmaRuleLocation(f"/rules/loaded{op[1] % len(docs)}.yml"))
                 hist.append(f"load(r{op[1] % len(docs)})")
             elif kind == "convert_rule":
                 b, r = op[1] % len(backends), op[2] % len(docs)
                 hist.append(f"b{b}.convert_rule(r{r})")
                 if not hasattr(backends[b], "last_processing_pipeline"):
                     inits.append(b)
-                backends[b].convert_rule(SigmaRule.from_dict(copy.deepcopy(docs[r])))
+                backends[b].convert_rule(SigmaRule.from_dict(copy.deepcopy(docs[r]), source=SigmaRuleLocation(f"/rules/r{r}.yml")))
             elif kind == "convert":
                 b = op[1] % len(backends)
                 sel = [docs[x % len(docs)] for x in op[2]] or [docs[0]]
                 hist.append(f"b{b}.convert({[d['title'] for d in sel]})")
                 inits.append(b)
-                backends[b].convert(SigmaCollection.from_dicts(copy.deepcopy(sel)))
+                backends[b].convert(SigmaCollection.from_dicts(copy.deepcopy(sel), source=SigmaRuleLocation("/rules/collection.yml")))
         except Exception:  # noqa - failing conversions are part of the history
             failing = True
     # the probe runs on a backend that uses the first pipeline definition (what the fresh result is computed for)
@@ -205,9 +211,9 @@ def check_case(case: dict) -> Outcome:
 @st.composite
 def cases(draw):
     not_eq = draw(st.booleans())
-    kinds = ["plain", "plain", "placeholder", "placeholder_other", "cased", "missing", "multi"] + (["neg_cased"] if not_eq else [])
+    kinds = ["plain", "plain", "placeholder", "placeholder_other", "cased", "missing", "broken", "multi"] + (["neg_cased"] if not_eq else [])
     docs = [rule_doc(i, draw(st.sampled_from(kinds)), draw(st.sampled_from(LOGSOURCES)), draw(st.integers(0, 3))) for i in range(draw(st.integers(1, 4)))]
-    probe = rule_doc(9, draw(st.sampled_from(["plain", "placeholder", "placeholder_other", "multi"])), draw(st.sampled_from(LOGSOURCES[:4] + LOGSOURCES[5:])), draw(st.integers(0, 3)))
+    probe = rule_doc(9, draw(st.sampled_from(["plain", "placeholder", "placeholder_other", "multi", "broken", "missing"])), draw(st.sampled_from(LOGSOURCES[:4] + LOGSOURCES[5:])), draw(st.integers(0, 3)))
     ops = []
     for _ in range(draw(st.integers(0, 8))):
         k = draw(st.sampled_from(["new_backend", "init", "load", "convert_rule", "convert_rule", "convert", "convert"]))
